@@ -9,9 +9,13 @@ namespace StyleSites
 open Generated.StyleSites
 
 /-- Value of a site's `true_color` argument when the configured flag (`opt.computed.true_color`)
-is `configured`. `none`: not a closed expression (a forwarded parameter, or decided elsewhere). -/
+is `configured`. `config.true_color` is that flag when `Config::from` initialises the field from it
+(`configTrueColorIsComputed`, generated). `none`: not a closed expression (a forwarded parameter,
+or decided elsewhere). -/
 def evalDepth (arg : String) (configured : Bool) : Option Bool :=
   if arg = "opt.computed.true_color" then some configured
+  else if (arg = "self.config.true_color" ∨ arg = "config.true_color") ∧ configTrueColorIsComputed = true
+    then some configured
   else if arg = "true" ∨ arg = "true (fixed inside from_git_str)" then some true
   else if arg = "false" then some false
   else none
@@ -22,25 +26,29 @@ the SGR sequences found in git's raw output (`hunk.rs`: `line_has_style_other_th
 writes `#rrggbb` colours as 24-bit sequences regardless of delta's colour depth. -/
 def depthExceptions : List String := ["git-minus-style", "git-plus-style"]
 
-/-- A helper call that neither forwards its caller's `true_color` parameter nor leaves the decision
-to a callee that is itself in the inventory. -/
+/-- A helper call whose depth is a constant: it neither follows the configuration nor forwards its
+caller's parameter nor leaves the decision to a callee that is itself in the inventory. -/
 def literalHelper (s : Site) : Bool :=
-  s.kind = "helper" ∧ (evalDepth s.trueColorArg false).isSome
+  s.kind = "helper" ∧ (evalDepth s.trueColorArg false).isSome ∧
+    evalDepth s.trueColorArg false = evalDepth s.trueColorArg true
 
 /-- The helper sites allowed to fix the depth themselves (in-function, callee, style argument):
-* `from_git_str` (parse_style.rs) and its use in `parse_as_reference_to_git_config`: git's own colour
-  strings, see `depthExceptions`;
-* `parse_as_style_or_reference_to_git_config` (`--map-styles`): the *keys* of the map are compared with
-  raw 24-bit input and need 24-bit parsing; the same helper also parses the replacement style, which
-  is therefore painted in 24-bit even under `--true-color=never` (observed; recorded in notes/C12.md —
-  `--map-styles` is not a style-typed option);
-* `blame_metadata_style` (blame.rs): the colours of `--blame-palette` (a colour list, not a style
-  option) — also painted in 24-bit under `--true-color=never` (observed; notes/C12.md). -/
+* `from_git_str` (parse_style.rs): git's own colour strings, see `depthExceptions`;
+* the *key* of a `--map-styles` entry (`from_str` in `parse_styles_map`): it is compared with the SGR
+  sequences of raw input, which are 24-bit capable whatever delta's depth;
+* `parse_as_reference_to_git_config` → `from_git_str`: a style option that *refers* to a custom
+  git-config key (`minus-style = foo-style`, `[delta] foo-style = "#123456"`). **Not legitimate**: the
+  referenced style is painted, and is painted in 24-bit under `--true-color=never` (reachable since the
+  repair d8feadd; reported by the binary oracle as `depth:gitconfig-reference-ignores-depth`, known
+  finding, fix proposal notes/fix-gitconfig-style-reference-depth.diff). It stays listed here only so
+  that the theorem holds on the tree as it is; after the repair the site forwards a parameter and
+  the entry is dead.
+(Before the repairs ca31cd5 / a0a88d2 the `--map-styles` replacement and `--blame-palette` were
+literal `true` too; they now follow the configuration, see `map_styles_and_blame_palette_depth`.) -/
 def allowedLiteralHelpers : List (String × String × String) :=
   [("from_git_str", "Self::from_str", "git_style_string"),
-   ("parse_as_reference_to_git_config", "Style::from_git_str", "&s"),
-   ("parse_as_style_or_reference_to_git_config", "style_from_str", "style_string"),
-   ("blame_metadata_style", "color::parse_color", "&color")]
+   ("parse_styles_map", "parse_as_style_or_reference_to_git_config", "from_str"),
+   ("parse_as_reference_to_git_config", "Style::from_git_str", "&s")]
 
 /-- **Every style option's call site passes the configured colour depth** (generated table). -/
 theorem option_sites_pass_configured_depth :
@@ -63,6 +71,16 @@ theorem helpers_forward_depth :
 theorem every_cli_style_option_has_a_site :
     ∀ o ∈ cliStyleOptions, ∃ s ∈ styleCallSites, s.kind = "option" ∧ o ∈ s.uses ∧
       s.trueColorArg = "opt.computed.true_color" := by decide
+
+/-- The replacement style of a `--map-styles` entry and the colours of `--blame-palette` are parsed
+at the configured depth (there is such a site for each, and every such site follows the
+configuration). -/
+theorem map_styles_and_blame_palette_depth :
+    (∃ s ∈ styleCallSites, s.inFn = "parse_styles_map" ∧ s.styleArg = "to_str") ∧
+    (∃ s ∈ styleCallSites, s.inFn = "blame_metadata_style" ∧ s.callee = "color::parse_color") ∧
+    (∀ s ∈ styleCallSites,
+      (s.inFn = "parse_styles_map" ∧ s.styleArg = "to_str") ∨ s.inFn = "blame_metadata_style" →
+      ∀ configured, evalDepth s.trueColorArg configured = some configured) := by decide
 
 /-- Lifted: at every (non-exception) option site the depth the parser runs with *is* the
 configured one. -/
